@@ -53,9 +53,11 @@ LEVEL_TEXT = (
     "patch_obj/apply by a differential run (exhaustive over the stated grid in the thorough tier) and to the "
     "whole operator by replaying every observed patch_obj call.")
 THEOREMS = [("Kopf.Props.C08", "Kopf.C08." + n) for n in [
-    "merge_delivered", "status_null_dropped_witness", "routed_by_subresource", "fns_atomic",
-    "conflict_keeps_all_fns", "block_idem", "allow_idem", "carry_forward", "carry_forward_not_repeated",
-    "reapply_membership", "reapply_order_witness", "silent_404", "same_object_partial", "name_reuse_witness"]]
+    "merge_delivered", "routed_by_subresource", "merge_complete", "status_null_dropped_witness",
+    "fns_atomic", "conflict_keeps_all_fns", "remaining_only_after_refusal",
+    "block_idem", "allow_idem", "foreign_finalizers_untouched",
+    "carry_forward", "carry_forward_not_repeated", "reapply_membership", "reapply_order_witness",
+    "silent_404", "raised_only_on_merge_422", "same_object_partial", "name_reuse_witness"]]
 RULE = (
     "grid: subresource(2) x initial object {plain, foreign+own finalizer, marked+own finalizer}(3) x fields {none, "
     "metadata annotations, spec, status, metadata+status}(5) x fns {none, [block], [allow], [block,allow], [setStatus], "
